@@ -245,6 +245,7 @@ def build(c, prior_set, sel, n, constraint, draws):
     with stubs.patched((pgabc.Parameter, "random_sample", lambda self: 0.25)):
         obj = pgabc.create_loss("SquareLoss", params, m, x0_arg, t0_arg, arr(c, K.t), y_arg, list(sel) if p > 1 else sel[0])
     K.obj, K.model = obj, m
+    K.x0_arg, K.x0_before = x0_arg, [v for v in x0_arg]
     if constraint:
         K.pop = c.real("pop", lo=20, hi=40)
         K.con_state = constraint
@@ -388,6 +389,8 @@ def havoc_cost(c, K):
 
 
 def check_particle(c, K, book, st, particle, dist, weight, tol, label, w_expected=None):
+    from .stoch import unchanged
+    c.prove(unchanged(K.x0_arg, K.x0_before, c), "the x0 array the caller handed to create_loss is not modified by the ABC run" + label)
     c.prove(in_support(c, K, particle), "particle lies in the support of every prior" + label)
     pd = prior_density(c, K, particle, st)
     c.prove(pd > 0, "prior density of the stored particle is positive" + label)
